@@ -106,6 +106,7 @@ def _sign_values(self, d, z):
 class sign_with_recid:
     props = ["C01"]
     sig = dict(self=GEN, secret_exponent=Int(1), val=Int(1, 2 ** 256 - 1), gen_k=Const(None))
+    returns = Tup(Int(), Int(), Int())
 
     def requires(self, secret_exponent, val, gen_k):
         n = self._order
@@ -152,6 +153,7 @@ def _verifies_pt(self, Q, z, r, s):
 class recover:
     props = ["C01", "C17"]
     sig = dict(self=GEN, value=Int(1), signature=Tup(Int(), Int()), y_parity=Opt(Int(0, 3)))
+    returns = SmallList(APoint(), 2)
 
     def ensures_only_verifying_keys(self, value, signature, y_parity, result):
         n = self._order
